@@ -36,11 +36,14 @@ pub fn hold_main(args: &[String]) -> i32 {
     let rl = match RaftLog::<V>::open(cfg.to_config(dir)) {
         Ok(r) => r,
         Err(_) => {
-            let _ = std::fs::write(ready, "refused");
+            let _ = std::fs::write(format!("{}.tmp", ready), "refused");
+            let _ = std::fs::rename(format!("{}.tmp", ready), ready);
             return 3;
         }
     };
-    let _ = std::fs::write(ready, "owner");
+    // (written under another name first: the parent must never see the file without its content)
+    let _ = std::fs::write(format!("{}.tmp", ready), "owner");
+    let _ = std::fs::rename(format!("{}.tmp", ready), ready);
     let t0 = util::now_s();
     while !std::path::Path::new(release).exists() && util::now_s() - t0 < 60.0 {
         std::thread::sleep(std::time::Duration::from_millis(1));
@@ -201,11 +204,11 @@ pub fn alias_round(ci: &CleanImage) -> Result<(Option<Viol>, u64), String> {
 pub fn dead_worker_round(seed: u64) -> Result<(Option<Viol>, u64), String> {
     let dir = util::fresh_dir("c13d");
     let mut r = util::Rng::new(seed);
-    let cfg = CfgSpec { max_records: Some(*r.pick(&[2usize, 3, 50])), read_buf: Some(64), ..Default::default() };
+    // the worker's n-th write / unlink fails: the worker thread ends, the store object lives on
+    let kind = *r.pick(&[Sk::Write, Sk::Write, Sk::Unlink]);
+    let cfg = CfgSpec { max_records: Some(if kind == Sk::Unlink { 2 } else { *r.pick(&[2usize, 3, 50]) }), read_buf: Some(64), ..Default::default() };
     trace::reset_acks();
     trace::begin(&dir);
-    // the worker's n-th write / sync / unlink fails: the worker thread ends, the store object lives on
-    let kind = *r.pick(&[Sk::Write, Sk::Write, Sk::Unlink]);
     let nth = if kind == Sk::Unlink { 0 } else { r.below(3) as u32 };
     trace::set_faults(vec![Fault { role: Role::Worker, kind, nth, action: FaultAction::Eio, fired: false }]);
     let replay = json!({"kind": "c13", "mode": "dead_worker", "seed": seed.to_string()});
